@@ -150,10 +150,27 @@ pub fn random_op(rng: &mut Rng) -> VOp {
             let k = n(rng);
             VOp::Lines3d((0..k).map(|_| edge3(rng)).collect(), c)
         }
-        6 => VOp::Quad2(p2(rng), p2(rng), p2(rng), rng.range(1, 6) as u64),
-        7 => VOp::Quad3(p3(rng), p3(rng), p3(rng), rng.range(1, 6) as u64),
-        8 => VOp::Cubic2(p2(rng), p2(rng), p2(rng), p2(rng), rng.range(1, 6) as u64),
-        9 => VOp::Cubic3(p3(rng), p3(rng), p3(rng), p3(rng), rng.range(1, 6) as u64),
+        // curves: one in four is a closed loop (end exactly on start), one in eight has a control point on a knot
+        6 => {
+            let (s, c) = (p2(rng), p2(rng));
+            let e = if rng.chance(0.25) { s } else { p2(rng) };
+            VOp::Quad2(s, if rng.chance(0.125) { s } else { c }, e, rng.range(1, 6) as u64)
+        }
+        7 => {
+            let (s, c) = (p3(rng), p3(rng));
+            let e = if rng.chance(0.25) { s } else { p3(rng) };
+            VOp::Quad3(s, if rng.chance(0.125) { e } else { c }, e, rng.range(1, 6) as u64)
+        }
+        8 => {
+            let (s, a, b) = (p2(rng), p2(rng), p2(rng));
+            let e = if rng.chance(0.25) { s } else { p2(rng) };
+            VOp::Cubic2(s, if rng.chance(0.125) { s } else { a }, b, e, rng.range(1, 6) as u64)
+        }
+        9 => {
+            let (s, a, b) = (p3(rng), p3(rng), p3(rng));
+            let e = if rng.chance(0.25) { s } else { p3(rng) };
+            VOp::Cubic3(s, a, if rng.chance(0.125) { e } else { b }, e, rng.range(1, 6) as u64)
+        }
         10 => {
             let mut ch = CubicBezierChain2D::new(p2(rng), p2(rng), p2(rng), p2(rng), rng.range(1, 4) as u64);
             for _ in 0..rng.below(3) {
